@@ -161,7 +161,8 @@ class Cron(addons.AddonMainTask, block.SBlock):
                 # sleeptime: negative = after the alarm time; positive = before the alarm time
                 if step == 0:
                     self.log_debug("sleep until wakeup: %.3f sec", sleeptime)
-                if step > 1 or sleeptime < 0:
+                if step > 1 or sleeptime < 0 or (step == 1 and sleeptime > _TT_ERROR):
+                    # (way too early after the sleep = the clock has been changed)
                     diff = abs(sleeptime)
                     if self.debug:
                         self.log_debug(
